@@ -1,7 +1,8 @@
 (** C48 — the ring buffer (private/ringbuf, gateway/dataplane pktRing) is a
     linearizable bounded FIFO queue.  Property theorems only. *)
 From Coq Require Import List NArith ZArith Bool Arith Lia Permutation.
-From Scion Require Import Lib.Check Model.Ring Model.RingLin Proofs.Ring Proofs.RingLTS Proofs.RingLin.
+From Scion Require Import Lib.Check Model.Ring Model.PktLin Model.RingLin Proofs.Ring Proofs.RingLTS
+  Proofs.RingLin Proofs.PktLin.
 Import ListNotations.
 Import Ring RingLin.
 
@@ -204,6 +205,70 @@ Print Assumptions C48_oracle_holds_on_model.
 Theorem C48_pktring_fifo : forall ops, pkt_run pkt_new ops = pkt_spec_run [] 0 false ops.
 Proof. exact pkt_run_new_spec. Qed.
 Print Assumptions C48_pktring_fifo.
+
+(** Concurrent pktRing histories (several writers, one reader, a close, final
+    drain) are decided by the generic search instantiated with the one-step
+    pktRing specification [pspec_step], which is what the pktRing model over the
+    concrete ring computes. The search is correct in both directions; any
+    linearization accounts for every packet -- initial fill followed by the
+    accepted packets = delivered packets followed by what is still held, as
+    sequences -- so with unique packet identities and the final drain the boolean
+    content oracle (every accepted packet delivered exactly once, nothing else
+    delivered) holds; and a history that is itself a real-time-ordered legal run
+    (every sequential run of the model) is never rejected. *)
+Theorem C48_pktring_histories :
+  (forall ops qs n c,
+     pkt_spec_run qs n c ops =
+     match ops with
+     | [] => []
+     | o :: t =>
+       match PktLin.pspec_step {| PktLin.ps_q := qs; PktLin.ps_buf := n; PktLin.ps_cl := c |} o with
+       | (s', PRet k x) => Some (k, x) :: pkt_spec_run (PktLin.ps_q s') (PktLin.ps_buf s') (PktLin.ps_cl s') t
+       | (_, PBlocks) => [None]
+       end
+     end) /\
+  (forall fuel fill h,
+     (forall l, PktLin.plin_check fuel fill h = PktLin.Found l -> PLinearizable fill h) /\
+     (PktLin.plin_check fuel fill h = PktLin.NoLin -> ~ PLinearizable fill h)) /\
+  (forall l s s',
+     PktLin.gexec PktLin.prec PktLin.pst PktLin.pstep_rec s l = Some s' ->
+     PktLin.ps_q s ++ flat_map PktLin.accepted l = flat_map PktLin.delivered l ++ PktLin.ps_q s') /\
+  (forall fill h l s',
+     GIsLin PktLin.prec PktLin.pst PktLin.p_inv PktLin.p_ret PktLin.pstep_rec (PktLin.pst_init fill) h l ->
+     PktLin.gexec PktLin.prec PktLin.pst PktLin.pstep_rec (PktLin.pst_init fill) l = Some s' ->
+     PktLin.ps_q s' = [] -> NoDup (fill ++ flat_map PktLin.accepted h) ->
+     PktLin.content_ok fill h = true) /\
+  (forall fuel fill l,
+     PktLin.grt_ok PktLin.prec PktLin.p_inv PktLin.p_ret l ->
+     PktLin.gexec PktLin.prec PktLin.pst PktLin.pstep_rec (PktLin.pst_init fill) l <> None ->
+     PktLin.plin_check fuel fill l <> PktLin.NoLin).
+Proof.
+  split; [exact pkt_spec_run_step|]. split.
+  - intros fuel fill h. split.
+    + intros l. apply glin_check_found.
+    + apply glin_check_nolin.
+  - split; [intros l s s'; apply pexec_content|].
+    split; [exact content_ok_of_linearizable | exact plin_check_accepts_runs].
+Qed.
+Print Assumptions C48_pktring_histories.
+
+(** the overwritten-packet history (a writer parked on the full ring whose packet
+    is replaced by that of a later, rejected Write) is rejected by both oracles *)
+Example C48_pkt_lost_packet_rejected :
+  let fill := map N.of_nat (seq 1 64) in
+  let h := [PktLin.P (PWrite 2000 false) 0 None 3 4;
+            PktLin.P (PRead true) 1 (Some 1%N) 5 6;
+            PktLin.P (PWrite 1000 true) 1 None 1 7;
+            PktLin.D (map N.of_nat (seq 2 63) ++ [2000%N]) 8 9] in
+  PktLin.content_ok fill h = false /\
+  PktLin.plin_check PktLin.default_fuel fill h = PktLin.NoLin /\
+  let good := [PktLin.P (PWrite 2000 false) 0 None 3 4;
+               PktLin.P (PRead true) 1 (Some 1%N) 5 6;
+               PktLin.P (PWrite 1000 true) 1 None 1 7;
+               PktLin.D (map N.of_nat (seq 2 63) ++ [1000%N]) 8 9] in
+  PktLin.content_ok fill good = true /\
+  match PktLin.plin_check PktLin.default_fuel fill good with PktLin.Found _ => True | _ => False end.
+Proof. vm_compute. repeat split; reflexivity. Qed.
 
 (** Non-vacuity: a reader blocks on the empty ring of capacity 2, a writer's
     3-entry batch is cut to 2 and wakes it, a second writer waits for space, a
